@@ -760,6 +760,34 @@ def validation_loop_facts(P, f, vcall, frag_param, count_param):
                     err_edges.append((b, f.blocks[nz]))
             elif c is not None and c.op == 'icmp' and c.ops[0] == vres and c.pred in ('slt', 'sgt') and c.ops[1] == '0':
                 err_edges.append((b, f.blocks[tt.targets[0]]))
+    if not err_edges:
+        # the verdict may be carried in a flag that also stops the loop (`for (...; i < n && !bad; ) bad = check(...)`), and be tested
+        # once behind the loop: the loop must stay only while the flag is 0, the non-zero side behind it must be an error, and the
+        # zero side is then "the list was exhausted without a bad header"
+        from ..guards import implied_atoms as _ia_v
+        from ..retval import returns_via_edge as _rve_v, all_negative as _an_v
+        for F in [p_ for p_ in h.insts if p_.op == 'phi']:
+            carried = [v_ for v_, l_ in F.incoming if f.blocks[l_] in body]
+            if not carried or not all(strip_int_casts(f, v_) == vres for v_ in carried):
+                continue
+            ht = h.insts[-1]
+            stay = f.blocks[ht.targets[0]] in body if ht.op == 'br' and len(ht.targets) == 2 else None
+            stops = stay is not None and any(at_.op == 'icmp' and F.res in [strip_int_casts(f, o) for o in at_.ops] and '0' in at_.ops and
+                                             ((at_.pred == 'eq') == tv_) for at_, tv_ in _ia_v(f, ht.ops[0], stay))
+            if not stops:
+                continue
+            for tb in f.order:
+                tt = tb.insts[-1]
+                if tb in body or tt.op != 'br' or len(tt.targets) != 2 or not tt.ops:
+                    continue
+                c = f.defs.get(tt.ops[0])
+                if c is not None and c.op == 'icmp' and c.pred in ('eq', 'ne') and F.res in [strip_int_casts(f, o) for o in c.ops] and '0' in c.ops:
+                    bad_b = f.blocks[tt.targets[0] if c.pred == 'ne' else tt.targets[1]]
+                    good_b = f.blocks[tt.targets[1] if c.pred == 'ne' else tt.targets[0]]
+                    if _an_v(_rve_v(f, tb, bad_b)):
+                        err_edges.append((tb, bad_b))
+                        res['bound_exit'] = (tb, good_b)
+                        res['flag_exit'] = True
     res['err_edges'] = err_edges
     if not err_edges:
         res['problems'].append('result of the validation call is not tested')
@@ -777,7 +805,7 @@ def validation_loop_facts(P, f, vcall, frag_param, count_param):
         for s in b.succs:
             if s in body:
                 continue
-            if res.get('bound_exit') == (b, s):
+            if res.get('bound_exit') == (b, s) or (res.get('flag_exit') and b is h):
                 continue
             if (b, s) in err_edges or b in err_region:
                 res['exits'].append(('error', b, s))
